@@ -131,7 +131,7 @@ def check_multi_sampling(repo, chk):
         def first(tr, d, args, kwargs, n):
             last = d.split(".")[-1]
             if last == "uniform":
-                shp = args[0]
+                shp = args[0] if args else kwargs.get("shape", kwargs.get("size"))
                 m = int(shp[0]) if isinstance(shp, (tuple, list)) else int(shp)
                 return np.array([pattern[j % len(pattern)] for j in range(m)], dtype=object)
             if last == "data_merge":
